@@ -430,6 +430,14 @@ def family(rng, kind, thorough):
         V.append(([kind, ms, other_dt(rng, d)], 'diff', 'dt'))
         j = rng.randrange(n)
         m = ms[j]
+        if m[0] in ('poly', 'box', 'circle'):
+            # a member that differs only in its holes hashes like the original (polygon-like hashes ignore holes)
+            hpos = {'poly': 2, 'box': 3, 'circle': 3}[m[0]]
+            hx, hy = (m[1][0][0], m[1][0][1]) if m[0] == 'poly' else ((m[1][0], m[1][1]) if m[0] == 'circle' else (m[1][0] + 2, m[1][1] - 2))
+            extra = ['circle', [hx, hy], 7, [], None]
+            m2 = list(m)
+            m2[hpos] = ([] if m[hpos] else [extra])
+            V.append(([kind, ms[:j] + [m2] + ms[j + 1:], d], 'diff', 'member differs only in holes'))
         if m[0] == 'poly':
             V.append(([kind, ms[:j] + [['poly', rng.choice(rewrites(rng, m[1])), m[2], m[3]]] + ms[j + 1:], d], 'same', 'member outline rewritten'))
         V.append(([kind, ms[:j] + [m[:-1] + [['iv', 3, 4]]] + ms[j + 1:], d], 'diff', 'member dt'))
@@ -464,6 +472,18 @@ CORPUS = [
     (['polyh', [[1, 1], [5, 2], [3, 6]], [], None], ['polyh', [[3, 6], [5, 2], [1, 1]], [], None], 'same', 'both stored clockwise'),
     # coordinates whose float hashes collide (hash(-1.0) == hash(-2.0))
     (['point', [-1, 0], None], ['point', [-2, 0], None], 'diff', 'colliding coordinate hashes'),
+    # multi-shapes whose members differ but hash alike (polygon-like hashes ignore holes, GeoPolygon hashes the vertex
+    # SET, hash(-1.0) == hash(-2.0)): equality must compare the members themselves, not their hashes
+    (['mpoly', [['poly', [[0, 0], [20, 0], [20, 20], [0, 20]], [['poly', [[5, 5], [9, 5], [9, 9], [5, 5]], [], None]], None]], None],
+     ['mpoly', [['poly', [[0, 0], [20, 0], [20, 20], [0, 20]], [], None]], None], 'diff', 'multipolygon member differs only in a hole'),
+    (['mpoly', [['box', [0, 4], [4, 0], [['box', [1, 2], [2, 1], [], None]], None], ['circle', [30, 0], 500, [], None]], None],
+     ['mpoly', [['box', [0, 4], [4, 0], [], None], ['circle', [30, 0], 500, [], None]], None], 'diff', 'multipolygon box member differs only in a hole'),
+    (['mpoly', [['poly', [[0, 0], [8, 0], [2, 2], [0, 8]], [], None]], None],
+     ['mpoly', [['poly', [[0, 0], [2, 2], [8, 0], [0, 8]], [], None]], None], 'diff', 'multipolygon member: same vertices joined in another order'),
+    (['mpoint', [['point', [-1, 0], None], ['point', [3, 3], None]], None],
+     ['mpoint', [['point', [-2, 0], None], ['point', [3, 3], None]], None], 'diff', 'multipoint member with a colliding coordinate hash'),
+    (['mline', [['line', [[-1, 0], [4, 4]], None]], ['inst', 1]], ['mline', [['line', [[-2, 0], [4, 4]], None]], ['inst', 1]], 'diff',
+     'multilinestring member with a colliding coordinate hash'),
     # D9: m is not part of coordinate identity (style 2 adds m)
     (['point', [3, 4], None], ['point', [3, 4], None], 'same', 'D9 m ignored'),
 ]
